@@ -9,10 +9,10 @@ import (
 	enc "github.com/named-data/ndnd/std/encoding"
 )
 
-func (dv *Router) VerifInitSelf()                      { dv.rib.Set(dv.config.RouterName(), dv.config.RouterName(), 0) }
-func (dv *Router) VerifRib() *table.Rib                  { return dv.rib }
-func (dv *Router) VerifNeighbors() *table.NeighborTable  { return dv.neighbors }
-func (dv *Router) VerifPfx() *table.PrefixTable          { return dv.pfx }
+func (dv *Router) VerifInitSelf()                       { dv.rib.Set(dv.config.RouterName(), dv.config.RouterName(), 0) }
+func (dv *Router) VerifRib() *table.Rib                 { return dv.rib }
+func (dv *Router) VerifNeighbors() *table.NeighborTable { return dv.neighbors }
+func (dv *Router) VerifPfx() *table.PrefixTable         { return dv.pfx }
 func (dv *Router) VerifAdvert() *tlv.Advertisement {
 	dv.mutex.Lock()
 	defer dv.mutex.Unlock()
@@ -31,8 +31,8 @@ func (dv *Router) VerifFetch(from enc.Name, face uint64, adv *tlv.Advertisement)
 	dv.mutex.Unlock()
 	dv.ribUpdate(ns)
 }
-func (dv *Router) VerifDeadCheck()                  { dv.checkDeadNeighbors() }
-func (dv *Router) VerifFibUpdate()                  { dv.fibUpdate() }
+func (dv *Router) VerifDeadCheck()                   { dv.checkDeadNeighbors() }
+func (dv *Router) VerifFibUpdate()                   { dv.fibUpdate() }
 func (dv *Router) VerifDrainCmds() []nfdc.NfdMgmtCmd { return dv.nfdc.VerifDrain() }
 func (dv *Router) VerifAnnounce(n enc.Name) {
 	dv.mutex.Lock()
@@ -74,4 +74,14 @@ func (dv *Router) VerifPrefixesOf(node enc.Name) (names []enc.Name, known uint64
 		names = append(names, p.Name)
 	}
 	return names, r.Known, r.Latest
+}
+
+// VerifSendSync sends the periodic advertisement Sync Interests (what the heartbeat ticker of Start does).
+func (dv *Router) VerifSendSync() { dv.advertSyncSendInterest() }
+
+// VerifAdvertSeq returns the advertisement sequence number this router announces.
+func (dv *Router) VerifAdvertSeq() uint64 {
+	dv.mutex.Lock()
+	defer dv.mutex.Unlock()
+	return dv.advertSyncSeq
 }
